@@ -77,6 +77,7 @@ class World(object):
         self.hook_calls = 0
         self.fault_fired = []   # [(k, hook name, arg)]
         self.cleanup_log = []
+        self.timeline = []      # ("hook", name, arg) | ("call", sid, src) | ("cleanup", key)
         self.phase = 1
         self.attempt = {}
         self._out = {}
@@ -228,6 +229,7 @@ class World(object):
         e = self.obj2elem.get(id(sc))
         sid = e.eid if e is not None else "?"
         self.calls.append((sid, src))
+        self.timeline.append(("call", sid, src))
         o = self.out(sid, src)
         if o == OUT_ASSERT:
             self.events.append(("assert", sid, src))
@@ -255,6 +257,7 @@ class World(object):
 
             def cleanup():
                 self.cleanup_log.append(key)
+                self.timeline.append(("cleanup", key))
                 if self.clean(key):
                     self.events.append(("cleanup-raised", key))
                     raise RuntimeError("cleanup %s" % key)
@@ -301,6 +304,7 @@ class World(object):
                         se = w.obj2elem.get(id(sc))
                         arg = "%s/%s" % (se.eid if se else "?", arg)
                 w.hooklog.append((name, str(arg) if arg is not None else None))
+                w.timeline.append(("hook", name, str(arg) if arg is not None else None))
                 owner = arg
                 if "tag" in name:
                     cands = [e for e in w.elems(("feature", "rule", "scenario", "row")) if arg in e.tags]
